@@ -2,7 +2,8 @@ import GoldModel.Lemmas.BigStep
 /-!
 Big-step rules for the combinators the statement and declaration parsers use on top of those of
 `Lemmas/BigStep.lean`: `opt`, `check`, `ifTok`, `ifEof`, `recover`, `dep`, `emit`, `reslice`,
-`prepend`.  Every rule is derived from `runP` and keeps the discipline of `Parses`/`Fails`: the run
+`prepend`.  The rules that coincide with those of `Lemmas/BigStep.lean` are stated through them (kept under the `s_` names the
+program proofs use); the others are derived from `runP`.  Every rule and keeps the discipline of `Parses`/`Fails`: the run
 it describes emitted NO diagnostic.  `SFailsAt g ts e` (`FailsAt g ts` of `Lemmas/BigStep.lean` is the case `e = ts`) additionally records the position the error
 points at (what `recover` resumes from).
 -/
@@ -21,25 +22,21 @@ theorem Parses.s_to {g : G} {ts r : List Tok} {v v' : Tree} (h : Parses g ts r v
 
 /-! ### `opt` -/
 
-theorem Parses.s_opt {a : G} {ts r : List Tok} {v : Tree} (h : Parses a ts r v) : Parses (.opt a) ts r v := by
-  obtain ⟨f, h⟩ := h
-  exact ⟨f + 1, by simp only [runP, h]⟩
+theorem Parses.s_opt {a : G} {ts r : List Tok} {v : Tree} (h : Parses a ts r v) : Parses (.opt a) ts r v :=
+  Parses.opt_some h
 
-theorem Parses.s_opt_none {a : G} {ts : List Tok} (h : Fails a ts) : Parses (.opt a) ts ts Tree.none := by
-  obtain ⟨f, e, m, h⟩ := h
-  exact ⟨f + 1, by simp only [runP, h]⟩
+theorem Parses.s_opt_none {a : G} {ts : List Tok} (h : Fails a ts) : Parses (.opt a) ts ts Tree.none :=
+  Parses.opt_none h
 
 /-! ### `check`, `prepend`, `emit` -/
 
 theorem Parses.s_check {p : Tree → Bool} {msg : String} {g : G} {ts r : List Tok} {v : Tree}
-    (h : Parses g ts r v) (hp : p v = true) : Parses (.check p msg g) ts r v := by
-  obtain ⟨f, h⟩ := h
-  exact ⟨f + 1, by simp only [runP, h, hp, ↓reduceIte]⟩
+    (h : Parses g ts r v) (hp : p v = true) : Parses (.check p msg g) ts r v :=
+  Parses.check h hp
 
 theorem Fails.s_check {p : Tree → Bool} {msg : String} {g : G} {ts : List Tok} (h : Fails g ts) :
-    Fails (.check p msg g) ts := by
-  obtain ⟨f, e, m, h⟩ := h
-  exact ⟨f + 1, e, m, by simp only [runP, h]⟩
+    Fails (.check p msg g) ts :=
+  Fails.check1 h
 
 theorem Parses.s_prepend {s : String} {g : G} {ts r : List Tok} {v : Tree} (h : Parses g ts r v) :
     Parses (.prepend s g) ts r v := by
@@ -64,9 +61,8 @@ theorem Fails.s_emit {fn : Tree → Option Diag} {g : G} {ts : List Tok} (h : Fa
 
 theorem Parses.s_ifTok_hit {ks : List Kind} {a b : G} {t : Tok} {rest r : List Tok} {v : Tree}
     (hc : t.kind ≠ Kind.Comment) (hk : ks.contains t.kind = true) (h : Parses a rest r v) :
-    Parses (.ifTok ks a b) (t :: rest) r (Tree.seq [.leaf t, v]) := by
-  obtain ⟨f, h⟩ := h
-  exact ⟨f + 1, by simp only [runP, firstReal_cons hc, hk, ↓reduceIte, h]⟩
+    Parses (.ifTok ks a b) (t :: rest) r (Tree.seq [.leaf t, v]) :=
+  Parses.ifTok_hit (firstReal_cons hc) hk h
 
 theorem Fails.s_ifTok_hit {ks : List Kind} {a b : G} {t : Tok} {rest : List Tok}
     (hc : t.kind ≠ Kind.Comment) (hk : ks.contains t.kind = true) (h : Fails a rest) :
@@ -76,9 +72,8 @@ theorem Fails.s_ifTok_hit {ks : List Kind} {a b : G} {t : Tok} {rest : List Tok}
 
 theorem Parses.s_ifTok_miss {ks : List Kind} {a b : G} {t : Tok} {rest r : List Tok} {v : Tree}
     (hc : t.kind ≠ Kind.Comment) (hk : ks.contains t.kind = false) (h : Parses b (t :: rest) r v) :
-    Parses (.ifTok ks a b) (t :: rest) r v := by
-  obtain ⟨f, h⟩ := h
-  exact ⟨f + 1, by simp only [runP, firstReal_cons hc, hk, Bool.false_eq_true, ↓reduceIte, h]⟩
+    Parses (.ifTok ks a b) (t :: rest) r v :=
+  Parses.ifTok_miss (firstReal_cons hc) hk h
 
 theorem Fails.s_ifTok_miss {ks : List Kind} {a b : G} {t : Tok} {rest : List Tok}
     (hc : t.kind ≠ Kind.Comment) (hk : ks.contains t.kind = false) (h : Fails b (t :: rest)) :
@@ -87,29 +82,24 @@ theorem Fails.s_ifTok_miss {ks : List Kind} {a b : G} {t : Tok} {rest : List Tok
   exact ⟨f + 1, e, m, by simp only [runP, firstReal_cons hc, hk, Bool.false_eq_true, ↓reduceIte, h]⟩
 
 theorem Parses.s_ifTok_nil {ks : List Kind} {a b : G} {r : List Tok} {v : Tree} (h : Parses b [] r v) :
-    Parses (.ifTok ks a b) [] r v := by
-  obtain ⟨f, h⟩ := h
-  exact ⟨f + 1, by simp only [runP, firstReal, h]⟩
+    Parses (.ifTok ks a b) [] r v :=
+  Parses.ifTok_none rfl h
 
-theorem Parses.s_ifEof_nil {a b : G} {r : List Tok} {v : Tree} (h : Parses a [] r v) : Parses (.ifEof a b) [] r v := by
-  obtain ⟨f, h⟩ := h
-  exact ⟨f + 1, by simp only [runP, h]⟩
+theorem Parses.s_ifEof_nil {a b : G} {r : List Tok} {v : Tree} (h : Parses a [] r v) : Parses (.ifEof a b) [] r v :=
+  Parses.ifEof_nil h
 
 theorem Parses.s_ifEof_cons {a b : G} {t : Tok} {ts r : List Tok} {v : Tree} (h : Parses b (t :: ts) r v) :
-    Parses (.ifEof a b) (t :: ts) r v := by
-  obtain ⟨f, h⟩ := h
-  exact ⟨f + 1, by simp only [runP, h]⟩
+    Parses (.ifEof a b) (t :: ts) r v :=
+  Parses.ifEof_cons h
 
-theorem Fails.s_ifEof_cons {a b : G} {t : Tok} {ts : List Tok} (h : Fails b (t :: ts)) : Fails (.ifEof a b) (t :: ts) := by
-  obtain ⟨f, e, m, h⟩ := h
-  exact ⟨f + 1, e, m, by simp only [runP, h]⟩
+theorem Fails.s_ifEof_cons {a b : G} {t : Tok} {ts : List Tok} (h : Fails b (t :: ts)) : Fails (.ifEof a b) (t :: ts) :=
+  Fails.ifEof_cons h
 
 /-! ### `recover`: on well-formed input it does not fire -/
 
 theorem Parses.s_recover {m : RecMode} {g : G} {ts r : List Tok} {v : Tree} (h : Parses g ts r v) :
-    Parses (.recover m g) ts r v := by
-  obtain ⟨f, h⟩ := h
-  exact ⟨f + 1, by simp only [runP, h]⟩
+    Parses (.recover m g) ts r v :=
+  Parses.recover h
 
 /-- the silent mode (`match p(next) { Err(e) => (e.input, default) }`) resumes at the error position -/
 theorem Parses.s_recover_silent {g : G} {ts e : List Tok} (h : SFailsAt g ts e) :
@@ -121,20 +111,15 @@ theorem Parses.s_recover_silent {g : G} {ts e : List Tok} (h : SFailsAt g ts e) 
 
 theorem Parses.s_dep_yes {a b : G} {test : Tree → Bool} {ts r r2 : List Tok} {va vb : Tree}
     (ha : Parses a ts r va) (ht : test va = true) (hb : Parses b r r2 vb) :
-    Parses (.dep a test b) ts r2 (Tree.seq [va, vb]) := by
-  obtain ⟨f1, h1⟩ := ha
-  obtain ⟨f2, h2⟩ := hb
-  refine ⟨max f1 f2 + 1, ?_⟩
-  simp only [runP, lift_ok h1 (Nat.le_max_left f1 f2), lift_ok h2 (Nat.le_max_right f1 f2), ht, ↓reduceIte, List.append_nil]
+    Parses (.dep a test b) ts r2 (Tree.seq [va, vb]) :=
+  Parses.dep_yes ha ht hb
 
 theorem Parses.s_dep_no {a b : G} {test : Tree → Bool} {ts r : List Tok} {va : Tree}
-    (ha : Parses a ts r va) (ht : test va = false) : Parses (.dep a test b) ts r (Tree.seq [va, Tree.none]) := by
-  obtain ⟨f, h⟩ := ha
-  exact ⟨f + 1, by simp only [runP, h, ht, Bool.false_eq_true, ↓reduceIte]⟩
+    (ha : Parses a ts r va) (ht : test va = false) : Parses (.dep a test b) ts r (Tree.seq [va, Tree.none]) :=
+  Parses.dep_no ha ht
 
-theorem Fails.s_dep1 {a b : G} {test : Tree → Bool} {ts : List Tok} (ha : Fails a ts) : Fails (.dep a test b) ts := by
-  obtain ⟨f, e, m, h⟩ := ha
-  exact ⟨f + 1, e, m, by simp only [runP, h]⟩
+theorem Fails.s_dep1 {a b : G} {test : Tree → Bool} {ts : List Tok} (ha : Fails a ts) : Fails (.dep a test b) ts :=
+  Fails.dep1 ha
 
 /-! ### `reslice`: the cut-out body is parsed on its own -/
 
